@@ -19,6 +19,11 @@ COMPONENTS = {
 }
 
 
+def n_part(name, profile, quick, thorough, selftest=48, extra_args=None):
+    return {"name": name, "engine": "N", "bin": "vnative", "args": ["--profile", profile] + (extra_args or []),
+            "count": {"quick": quick, "thorough": thorough}, "selftest_count": selftest}
+
+
 def s_part(name, profile, variants, quick, thorough, selftest=300):
     return {"name": name, "engine": "S", "bin": "vsim", "args": ["--profile", profile, "--variants", variants],
             "count": {"quick": quick, "thorough": thorough}, "selftest_count": selftest}
@@ -32,35 +37,39 @@ PLAN = {
     "C01": {
         "level": "fault_enumeration",
         "rule": "scenario = (variant, page size, kernel policy incl. injected faults, text base class, entry page-offset class, neighbourhood class, fake class, install kinds) drawn from the seeded generator; distinct = distinct class tuples among scenarios with >=1 successful install or >=1 fired fault",
-        "assumptions": [A_S],
+        "assumptions": [A_S, A_N],
         "parts": [
             s_part("S-x86-placements", "C01", "x86_64_linux", 40000, 2000000),
             s_part("S-other-variants", "C01", "aarch64_linux,arm_linux", 8000, 400000),
+            s_part("S-windows-long-entry", "C01", "x86_64_windows", 600, 20000, selftest=60),
+            n_part("N-synthetic-and-real", "C01", 480, 24000),
         ],
     },
     "C02": {
         "level": "fault_enumeration",
         "rule": "scenario = 1-4 consecutive injector lifetimes of 0-8 installs over 2-6 packed targets with repetition, exit by drop or injected panic, on a seeded layout/kernel; distinct = distinct (variant, history shape, layout, policy) class tuples among non-trivial scenarios",
-        "assumptions": [A_S],
-        "parts": [s_part("S-histories", "C02", LINUX3, 24000, 2400000)],
+        "assumptions": [A_S, A_N],
+        "parts": [s_part("S-histories", "C02", LINUX3, 24000, 2400000), n_part("N-histories", "C02", 640, 64000)],
     },
     "C03": {
         "level": "fault_enumeration",
         "rule": "as C02 with bystander functions packed at 16-byte pitch between targets; every write/munmap event is judged; distinct = class tuples",
-        "assumptions": [A_S],
-        "parts": [s_part("S-histories", "C03", LINUX3, 24000, 2400000)],
+        "assumptions": [A_S, A_N],
+        "parts": [s_part("S-histories", "C03", LINUX3, 24000, 2400000), n_part("N-histories", "C03", 480, 48000)],
     },
     "C11": {
         "level": "fault_enumeration",
         "rule": "scenario = (variant, page size 4K/16K/64K, target position incl. below 128 MiB, neighbourhood empty/full/full-except-one-page/sparse, kernel policy: faithful or buggified hint rounding/fallback placement/ENOMEM); distinct = class tuples",
-        "assumptions": [A_S],
-        "parts": [s_part("S-layouts", "C11", "x86_64_linux,aarch64_linux", 12000, 1000000)],
+        "assumptions": [A_S, A_N],
+        "parts": [s_part("S-layouts", "C11", "x86_64_linux,aarch64_linux", 12000, 1000000),
+                  s_part("S-layouts-windows-macos", "C11", "aarch64_windows,x86_64_windows,aarch64_macos,x86_64_macos", 400, 20000, selftest=40),
+                  n_part("N-real-kernel-layouts", "C11", 160, 4000, selftest=16)],
     },
     "C12": {
         "level": "fault_enumeration",
         "rule": "as C02; the mmap/munmap ledger is judged after every call and at every scope exit; distinct = class tuples",
-        "assumptions": [A_S],
-        "parts": [s_part("S-histories", "C12", "x86_64_linux,aarch64_linux", 24000, 2400000)],
+        "assumptions": [A_S, A_N],
+        "parts": [s_part("S-histories", "C12", "x86_64_linux,aarch64_linux", 24000, 2400000), n_part("N-histories", "C12", 480, 48000)],
     },
     "C15": {
         "level": "fault_enumeration",
@@ -77,7 +86,7 @@ PLAN = {
     "C17": {
         "level": "fault_enumeration",
         "rule": "as C02; every write to code must be covered by a later icache flush before the API call returns; distinct = class tuples",
-        "assumptions": [A_S],
-        "parts": [s_part("S-histories", "C17", LINUX3, 24000, 2400000)],
+        "assumptions": [A_S, A_N],
+        "parts": [s_part("S-histories", "C17", LINUX3, 24000, 2400000), n_part("N-histories", "C17", 480, 48000)],
     },
 }
